@@ -437,7 +437,8 @@ def run(tier, seed):
         family, c, tzname = meta[k]
         pr = probes[family] if family in probes else None
         some = [0, 10, 27, 38, 63] if pr else [0, 3, 6, 11]
-        names = [(expr_of(pr[i], i + 1, family) or "verb " + " ".join(verb_of(pr[i], "t"))) if pr else DUR_EXPR[dur_probes[i]] for i in some]
+        names = [(expr_of(pr[i], i + 1, family) or "verb " + " ".join(verb_of(pr[i], "t"))) if pr
+                 else DUR_EXPR[dur_probes[i]].replace("$x%d", dsl_str(c["x"][i])) for i in some]
         return {"case": {k_: v for k_, v in c.items() if k_ != "x"}, "tz_setting": tzname,
                 "observed": {nm: obs[k]["out"][i] for nm, i in zip(names, some)}}
     idxs = [k for k in (good, len(obs) // 5, len(obs) // 2, gdur) if meta[k][0] in ("sec", "ns", "dur")]
